@@ -94,6 +94,15 @@ pub enum Act {
         vamm: String,
         amt: u128,
     },
+    /// any engine operation with a free-form vAMM string (crafted key collisions): op is one of open_buy, open_sell,
+    /// close, withdraw, liquidate, pay_funding; `trader` is the liquidation target; `amt` the margin / amount
+    RawOp {
+        by: String,
+        op: String,
+        vamm: String,
+        trader: String,
+        amt: u128,
+    },
     EngConfig {
         by: String,
         imr: Option<u128>,
@@ -115,6 +124,13 @@ pub enum Act {
 }
 
 impl Act {
+    /// index of the vAMM the action addresses (0 for actions that address none)
+    pub fn vamm_index(&self) -> usize {
+        match self {
+            Act::Open { v, .. } | Act::Close { v, .. } | Act::Dep { v, .. } | Act::Wd { v, .. } | Act::Liq { v, .. } | Act::Fund { v, .. } | Act::PxRel { v, .. } | Act::SetOpen { v, .. } | Act::VammCaps { v, .. } | Act::VammConfig { v, .. } => *v,
+            _ => 0,
+        }
+    }
     /// the same action with every amount, price and ratio multiplied by `k` (6-decimal notation -> raw units of a
     /// world with more decimals); actions are always executed in raw units
     pub fn scaled(&self, k: u128) -> Act {
@@ -131,6 +147,7 @@ impl Act {
             Act::Px { price } => Act::Px { price: price * k },
             Act::VammCaps { by, v, oi_cap, holding_cap } => Act::VammCaps { by, v, oi_cap: o(&oi_cap), holding_cap: o(&holding_cap) },
             Act::DepRaw { by, vamm, amt } => Act::DepRaw { by, vamm, amt: amt * k },
+            Act::RawOp { by, op, vamm, trader, amt } => Act::RawOp { by, op, vamm, trader, amt: amt * k },
             Act::EngConfig { by, imr, mmr, plr, lf } => Act::EngConfig { by, imr: o(&imr), mmr: o(&mmr), plr: o(&plr), lf: o(&lf) },
             Act::VammConfig { by, v, toll, spread, fluct, twap } => Act::VammConfig { by, v, toll: o(&toll), spread: o(&spread), fluct: o(&fluct), twap },
             a => a,
@@ -185,6 +202,7 @@ impl Act {
             | Act::Shutdown { by }
             | Act::Whitelist { by, .. }
             | Act::DepRaw { by, .. }
+            | Act::RawOp { by, .. }
             | Act::EngConfig { by, .. }
             | Act::VammConfig { by, .. }
             | Act::VammCaps { by, .. } => Some(by),
@@ -201,6 +219,7 @@ impl Act {
                 | Act::Liq { .. }
                 | Act::Fund { .. }
                 | Act::DepRaw { .. }
+                | Act::RawOp { .. }
         )
     }
     pub fn kind(&self) -> &'static str {
@@ -221,6 +240,7 @@ impl Act {
             Act::Whitelist { .. } => "whitelist",
             Act::VammCaps { .. } => "vamm_caps",
             Act::DepRaw { .. } => "deposit_raw",
+            Act::RawOp { .. } => "raw_op",
             Act::EngConfig { .. } => "engine_config",
             Act::VammConfig { .. } => "vamm_config",
             Act::Note(_) => "note",
@@ -526,6 +546,27 @@ pub fn apply_fault(w: &mut World, a: &Act, fail_at: Option<u32>) -> Outcome {
         Act::DepRaw { by, vamm, amt } => {
             let msg = EngineExec::DepositMargin { vamm: vamm.clone(), amount: Uint128::new(*amt) };
             w.exec_full(by, &eng, &msg, if native { *amt } else { 0 }, fail_at)
+        }
+        Act::RawOp { by, op, vamm, trader, amt } => {
+            use margined_perp::margined_engine::Side;
+            let d = w.d;
+            let (msg, funds) = match op.as_str() {
+                "open_buy" | "open_sell" => (
+                    EngineExec::OpenPosition {
+                        vamm: vamm.clone(),
+                        side: if op == "open_buy" { Side::Buy } else { Side::Sell },
+                        margin_amount: Uint128::new(*amt),
+                        leverage: Uint128::new(d),
+                        base_asset_limit: Uint128::zero(),
+                    },
+                    *amt,
+                ),
+                "close" => (EngineExec::ClosePosition { vamm: vamm.clone(), quote_asset_limit: Uint128::zero() }, 0),
+                "withdraw" => (EngineExec::WithdrawMargin { vamm: vamm.clone(), amount: Uint128::new(*amt) }, 0),
+                "liquidate" => (EngineExec::Liquidate { vamm: vamm.clone(), trader: trader.clone(), quote_asset_limit: Uint128::zero() }, 0),
+                _ => (EngineExec::PayFunding { vamm: vamm.clone() }, 0),
+            };
+            w.exec_full(by, &eng, &msg, if native { funds } else { 0 }, fail_at)
         }
         Act::EngConfig { by, imr, mmr, plr, lf } => w.exec_full(
             by,
